@@ -36,6 +36,12 @@ Oracles (all element-wise for arrays)
 
 Non-trivial: non-synchronous, e > 0.01, >= 5 distinct non-zero mode frequencies.
 
+Generator domain notes: e, spin/n and obliquity are either exactly 0 or >= 1e-6, 1e-6, 1e-3 - with e ~ 1e-150 the products
+e^2 F^2 K reach the subnormal range inside the repository (and the harness) and legitimately lose relative precision.
+Repository calls go through tides_common.call_repo, which repeats a call that dies with numba's *run-time parfor shape
+assertion* (`AssertionError: Sizes of ... do not match`): seen sporadically only in cold-cache multi-process runs, on
+equal-length inputs, never on replay - a numba runtime artefact, not an input property (label numba_transient_retry).
+
 Known findings (all in .py files, NOT repaired in /repo; proposed patches in out/proposed-fix-C10-*.diff)
   KF-C10-zero-dissipation-q   collapse_modes raises ZeroDivisionError when no mode of a degree dissipates
                               (rheology 'elastic' / 'off' with scalar viscosity & shear): effective-Q average
@@ -157,6 +163,10 @@ def _ctl_defaults():
 
 
 def evaluate(case):
+    return tc.second_opinion('c10_mode_sum', _evaluate, case)
+
+
+def _evaluate(case):
     from TidalPy.toolbox.quick_tides import quick_tidal_dissipation
     su = tc.Setup(case, dual=False)
     b = su.bodies[0]
@@ -315,5 +325,19 @@ def _oop_ctl_default(c, su, b):
 
 
 def warm():
-    for case in fixed_cases('quick')[:6]:
+    """Populate the numba disk cache single-process (setup.sh) with every cacheable signature the quick tier uses:
+    tables for l_max 2..3 x every truncation, scalar and all-array calls, with/without obliquity, viscoelastic / CPL / CTL
+    collapse_modes variants.  (Cold multi-process compilation is where the sporadic numba AssertionError described in
+    tides_common.call_repo was seen.)"""
+    for case in fixed_cases('quick')[:8]:
         evaluate(case)
+    for trunc in tc.TRUNCS:
+        for l_max in (2, 3):
+            for as_array in (False, 'all'):
+                for use_obl in (False, True):
+                    for rheo in ('maxwell', 'cpl', 'ctl'):
+                        if rheo != 'maxwell' and (trunc not in (2, 6) or l_max != 2):
+                            continue
+                        evaluate(_base_case(trunc=trunc, l_max=l_max, as_array=as_array,
+                                            body={'rheology': rheo, 'use_obl': use_obl, 'sync': False},
+                                            pt={'e': 0.1, 'obl': [0.3, 0.2]}))
